@@ -139,3 +139,116 @@ Definition collide_params : list (str * pyv) := [([120%N], YFloat (9 # 10)); ([1
 Lemma collision_loses_scalar :
   alookup [120%N] (group collide_params) = Some (PList [YFloat (1 # 10)]).
 Proof. vm_compute. reflexivity. Qed.
+
+(* ---- only ACTIVE parameters are presented.  Declarative activity of a node of the conditional forest for the
+   parameters tr a trial carries: a root whose name the trial carries; or a child of an active node p such that the
+   value the trial carries for p is one of the child's matching parent values, and the trial carries the child's name. *)
+Inductive Act (roots : list xtree) (tr : list (str * pyv)) : xtree -> Prop :=
+| act_root r : In r roots -> alookup (xt_name r) tr <> None -> Act roots tr r
+| act_child p c pv : Act roots tr p -> In c (xt_children p) -> alookup (xt_name p) tr = Some pv ->
+    existsb (pyv_eqb pv) (xt_matching c) = true -> alookup (xt_name c) tr <> None -> Act roots tr c.
+
+Lemma alookup_aremove_other {A} n m (l : list (str * A)) : n <> m -> alookup n (aremove m l) = alookup n l.
+Proof.
+  intros Hne. induction l as [|[k w] r IH]; simpl; [reflexivity|]. destruct (str_eqb_spec k m).
+  - subst k. destruct (str_eqb_spec m n); [congruence|reflexivity].
+  - simpl. rewrite IH. reflexivity.
+Qed.
+Lemma alookup_notin {A} n (l : list (str * A)) : ~ In n (map fst l) -> alookup n l = None.
+Proof.
+  induction l as [|[k w] r IH]; simpl; intros H; [reflexivity|]. destruct (str_eqb_spec k n); [exfalso; apply H; left; assumption|].
+  apply IH. intros Hin. apply H. right. exact Hin.
+Qed.
+Lemma aremove_names {A} m (l : list (str * A)) x : In x (map fst (aremove m l)) -> In x (map fst l).
+Proof.
+  induction l as [|[k w] r IH]; simpl; [tauto|]. destruct (str_eqb k m); simpl; [tauto|]. intros [H|H]; [left; exact H|right; apply IH; exact H].
+Qed.
+Lemma aremove_nodup {A} m (l : list (str * A)) : NoDup (map fst l) -> NoDup (map fst (aremove m l)).
+Proof.
+  induction l as [|[k w] r IH]; simpl; intros H; [constructor|]. inversion H; subst. destruct (str_eqb k m); [assumption|].
+  simpl. constructor; [intros Hin; apply H2; eapply aremove_names; eauto|apply IH; assumption].
+Qed.
+Lemma alookup_aremove_sub {A} n m (l : list (str * A)) v : NoDup (map fst l) -> alookup n (aremove m l) = Some v -> alookup n l = Some v.
+Proof.
+  intros Hnd H. destruct (str_eqb_spec n m) as [->|Hne]; [|rewrite alookup_aremove_other in H by exact Hne; exact H].
+  exfalso. clear -Hnd H. induction l as [|[k w] r IH]; simpl in *; [discriminate|]. inversion Hnd; subst.
+  destruct (str_eqb_spec k m).
+  - subst k. rewrite (alookup_notin m r H2) in H. discriminate.
+  - simpl in H. destruct (str_eqb_spec k m); [contradiction|]. apply IH; assumption.
+Qed.
+Lemma alookup_app_last {A} n (l : list (str * A)) k w v : alookup n (l ++ [(k, w)]) = Some v ->
+  alookup n l = Some v \/ (k = n /\ w = v).
+Proof.
+  induction l as [|[k0 w0] r IH]; simpl.
+  - destruct (str_eqb_spec k n); [intros [= <-]; right; auto|discriminate].
+  - destruct (str_eqb k0 n); [intros H; left; exact H|exact IH].
+Qed.
+
+Definition presented_ok (roots : list xtree) (tr : list (str * pyv)) (nx : str * pyv) : Prop :=
+  exists node v, Act roots tr node /\ xt_name node = fst nx /\ alookup (fst nx) tr = Some v /\ snd nx = cast (xt_ext node) v.
+
+Lemma to_external_active roots tr : forall fuel queue rem vals ext,
+  (forall parent pc, In (parent, pc) queue ->
+     (parent = None /\ In pc roots) \/ (exists p, parent = Some (xt_name p) /\ Act roots tr p /\ In pc (xt_children p))) ->
+  NoDup (map fst rem) -> (forall n v, alookup n rem = Some v -> alookup n tr = Some v) ->
+  (forall n v, alookup n vals = Some v -> alookup n tr = Some v) ->
+  (forall nx, In nx ext -> presented_ok roots tr nx) ->
+  forall nx, In nx (to_external fuel queue rem vals ext) -> presented_ok roots tr nx.
+Proof.
+  induction fuel as [|fuel IH]; intros queue rem vals ext Q Hnd R V E; [exact E|].
+  cbn [to_external]. destruct queue as [|[parent pc] rest]; [exact E|]. destruct rem as [|r0 rem0] eqn:Erem; [exact E|]. rewrite <- Erem in *.
+  assert (Qrest : forall parent0 pc0, In (parent0, pc0) rest ->
+     (parent0 = None /\ In pc0 roots) \/ (exists p, parent0 = Some (xt_name p) /\ Act roots tr p /\ In pc0 (xt_children p))).
+  { intros a b H. apply Q. right. exact H. }
+  destruct (alookup (xt_name pc) rem) as [v|] eqn:El; [|apply IH; assumption].
+  pose proof (R _ _ El) as Htr.
+  match goal with |- context [if ?b then _ else _] => destruct b eqn:Eact end; [|apply IH; assumption].
+  assert (Hact : Act roots tr pc).
+  { destruct (Q parent pc (or_introl eq_refl)) as [[-> Hroot]|[p [-> [Hp Hc]]]].
+    - apply act_root; [exact Hroot|rewrite Htr; discriminate].
+    - destruct (alookup (xt_name p) vals) as [pv|] eqn:Epv; [|discriminate].
+      apply (act_child roots tr p pc pv Hp Hc (V _ _ Epv) Eact). rewrite Htr. discriminate. }
+  apply IH.
+  - intros a b Hin. apply in_app_or in Hin. destruct Hin as [Hin|Hin]; [apply Qrest; exact Hin|].
+    apply in_map_iff in Hin. destruct Hin as [c [[= <- <-] Hc]]. right. exists pc. auto.
+  - apply aremove_nodup. exact Hnd.
+  - intros n w H. apply R. eapply alookup_aremove_sub; eauto.
+  - intros n w H. apply alookup_app_last in H. destruct H as [H|[<- <-]]; [apply V; exact H|exact Htr].
+  - intros nx Hin. apply in_app_or in Hin. destruct Hin as [Hin|[<-|[]]]; [apply E; exact Hin|].
+    exists pc, v. cbn [fst snd]. auto.
+Qed.
+
+(* every presented parameter is an ACTIVE parameter of the space, with the trial's value cast to the declared type *)
+Theorem presented_are_active roots tr : NoDup (map fst tr) ->
+  forall nx, In nx (to_external 1000 (map (fun t => (None, t)) roots) tr [] []) -> presented_ok roots tr nx.
+Proof.
+  intros Hnd. apply to_external_active; auto.
+  - intros parent pc Hin. apply in_map_iff in Hin. destruct Hin as [t [[= <- <-] Ht]]. left. auto.
+  - intros n v H. simpl in H. discriminate.
+  - intros nx [].
+Qed.
+
+(* ... and a trial that carries a parameter which is not the name of an active parameter is reported as an error *)
+Theorem inactive_is_error roots tr n : NoDup (map fst tr) -> In n (map fst tr) ->
+  (forall node, Act roots tr node -> xt_name node <> n) -> trial_parameters roots tr = Err EValue.
+Proof.
+  intros Hnd Hin Hno. unfold trial_parameters.
+  destruct (Nat.eqb (length (to_external 1000 (map (fun t => (None, t)) roots) tr [] [])) (length tr)) eqn:El; [|reflexivity].
+  exfalso. apply Nat.eqb_eq in El.
+  destruct (presented_exactly_trial_params roots tr El) as [Hperm _].
+  assert (Hn : In n (map fst (to_external 1000 (map (fun t => (None, t)) roots) tr [] [])))
+    by (eapply Permutation_in; [apply Permutation_sym; exact Hperm|exact Hin]).
+  apply in_map_iff in Hn. destruct Hn as [[n' x] [Hfst Hx]]. cbn [fst] in Hfst. subst n'.
+  destruct (presented_are_active roots tr Hnd (n, x) Hx) as [node [v [Ha [Hname _]]]]. cbn [fst] in Hname.
+  exact (Hno node Ha Hname).
+Qed.
+
+(* the shape that used to slip through (same name in two subtrees): model=linear, opt=adam, lr=0.1 where lr exists only
+   under model=dnn / opt=adam -> error (kernel-evaluated) *)
+Example inactive_grandchild_is_error :
+  let model := [109%N] in let opt := [111%N] in let lr := [108%N] in
+  let dnn := YStr [100%N] in let linear := YStr [105%N] in let adam := YStr [97%N] in
+  let roots := [XNode model ExInternal [] [XNode opt ExInternal [dnn] [XNode lr ExInternal [adam] []]; XNode opt ExInternal [linear] []]] in
+  trial_parameters roots [(model, linear); (opt, adam); (lr, YFloat (1 # 10))] = Err EValue /\
+  match trial_parameters roots [(model, dnn); (opt, adam); (lr, YFloat (1 # 10))] with Ok l => length l = 3%nat | Err _ => False end.
+Proof. vm_compute. split; reflexivity. Qed.
